@@ -365,6 +365,84 @@ pub fn c03(seed: u64) -> Scenario {
     sc
 }
 
+/// C03, close races: no external termination fault - one side's close (there is no half-close:
+/// a FIN ends both directions) races with data the other side has accepted, queued or in
+/// flight, also under loss of the trailing data. Success reported to either writer must still
+/// mean delivered, and EOF must come after the bytes that precede the FIN.
+pub fn c03_close_races(seed: u64) -> Scenario {
+    let mut r = Rng::new(seed ^ 0xC03C);
+    let ipv6 = r.chance(0.15);
+    // (a link MTU at the protocol minimum switches size probing off: every segment is ordinary)
+    let link = match r.below(10) {
+        0..=3 => None,
+        4..=6 => Some(if ipv6 { 1280 } else { 576 }),
+        _ => Some(r.range(600, 1500) as usize),
+    };
+    let mss = min_payload(link.unwrap_or(1500), ipv6) as u64;
+    let lat_ms = *r.pick(&[2u64, 5, 10, 40, 100]);
+    let mk = |r: &mut Rng| OptsCfg { link_mtu: link, inactivity_ms: Some(r.log_range(2000, 10_000)), max_retx: Some(r.range(3, 6) as usize), disable_nagle: r.chance(0.3), ..Default::default() };
+    let oa = mk(&mut r);
+    let ob = mk(&mut r);
+    let mut net = NetCfg { seed: r.next(), latency_us: lat_ms * 1000, protect_syn: true, ..Default::default() };
+    let rd = |r: &mut Rng| vec![ROp::Read { n: u64::MAX, buf: r.log_range(64, 65536) as usize, vectored: false }];
+    let (wa, wb) = match r.below(3) {
+        0 => {
+            // early peer close: B closes while A has sent its initial window and holds more
+            let mut wa = vec![WOp::Write { n: r.range(3, 12) * mss + r.below(mss), chunk: 1 << 20 }];
+            if r.chance(0.5) {
+                // the writer asks only after the close has played out
+                wa.push(WOp::Sleep(r.range(0, 8 * lat_ms + 10)));
+            }
+            wa.push(WOp::Flush);
+            if r.chance(0.5) {
+                wa.push(WOp::Shutdown);
+            }
+            // (mostly before A's first flight can have arrived: the FIN then acknowledges none of it)
+            let wb = vec![WOp::Sleep(if r.chance(0.7) { r.range(0, 2 * lat_ms) } else { r.range(0, 4 * lat_ms + 5) }), WOp::Shutdown];
+            (wa, wb)
+        }
+        1 => {
+            // simultaneous close, the trailing data of one side may be lost
+            let x = r.range(0, 200);
+            let wa = vec![WOp::Write { n: r.log_range(1, 4 * mss), chunk: 1 << 20 }, WOp::Sleep(x), WOp::Shutdown];
+            let y = (x + lat_ms).saturating_sub(r.below(lat_ms + 1)) + r.below(lat_ms + 1);
+            let wb = vec![WOp::Write { n: r.log_range(1, 2 * mss), chunk: 1 << 20 }, WOp::Sleep(y), WOp::Write { n: r.range(1, 2 * mss), chunk: 1 << 20 }, WOp::Shutdown];
+            net.type_drop_p[0] = *r.pick(&[0.0, 0.1, 0.3]);
+            (wa, wb)
+        }
+        _ => {
+            // one side drops both halves (the writer's Drop; the reader keeps reading in this
+            // family) at a random instant while the other is mid-transfer
+            let wa = vec![WOp::Write { n: r.log_range(1, 30 * mss), chunk: r.log_range(64, 65536) as usize }, WOp::Flush, WOp::Shutdown];
+            let wb = vec![WOp::Write { n: r.log_range(1, 10 * mss), chunk: 1 << 20 }, WOp::Sleep(r.log_range(1, 500)), WOp::Shutdown];
+            net.drop_p = *r.pick(&[0.0, 0.02, 0.1]);
+            (wa, wb)
+        }
+    };
+    // either node may be the one that closes early
+    let (wa, wb) = if r.chance(0.5) { (wa, wb) } else { (wb, wa) };
+    // the connector must send something first or the acceptor gives up
+    let mut wa = wa;
+    if !matches!(wa.first(), Some(WOp::Write { .. })) {
+        wa.insert(0, WOp::Write { n: 1, chunk: 1 });
+    }
+    let b = [&oa, &ob].iter().map(|o| o.inactivity_ms().max((o.max_retx() as u64 + 1) * 60_000)).max().unwrap();
+    Scenario {
+        family: "c03_close_races".to_string(),
+        seed,
+        net,
+        nodes: vec![NodeCfg { ipv6, opts: oa, env: gen_env(&mut r) }, NodeCfg { ipv6, opts: ob, env: gen_env(&mut r) }],
+        connects: vec![ConnectScript { node: 0, to: 1, at_ms: 0, cancel_after_ms: None, side: Side { w: wa, r: rd(&mut r) } }],
+        accepts: vec![AcceptScript { node: 1, at_ms: 0, cancel_after_ms: None, side: Side { w: wb, r: rd(&mut r) } }],
+        global: vec![],
+        peer: None,
+        attack: None,
+        script_cap_ms: 3_000 + 2 * b + 60_000,
+        settle_ms: b + 10_000,
+        params: Default::default(),
+    }
+}
+
 // ------------------------------------------------------------------------------------------
 // C02 (a): fair-lossy liveness.
 
@@ -974,7 +1052,14 @@ pub fn peer_sender(seed: u64, family: &str, exact: bool) -> Scenario {
         // segment size of the sender: the smallest one, or a larger one that the path carries
         // (the endpoint's own segment size - the unit it rounds its window to - grows with it)
         let s = if r.chance(0.5) || maxp <= mss + 1 { mss } else { r.range(mss as u64 + 1, maxp as u64) as usize };
-        let k = buf / s; // whole segments that fit: afterwards the advertised window is 0
+        let mut k = buf / s; // whole segments that fit: afterwards the advertised window is 0
+        if s > mss + 60 && r.chance(0.4) {
+            // one large packet both grows the endpoint's segment size and closes its window:
+            // what is left is at least one initial segment but less than one of the new size
+            let rem = r.range(mss as u64, s as u64 - 1) as usize;
+            opts.rx_buf = Some(s + rem);
+            k = 1;
+        }
         pkts = vec![s as u16; k];
         steps.clear();
         for i in 0..k {
@@ -1004,6 +1089,12 @@ pub fn peer_sender(seed: u64, family: &str, exact: bool) -> Scenario {
     } else if r.chance(0.3) {
         writer.push(WOp::Write { n: r.range(1, 3000), chunk: 4096 });
     }
+    // the endpoint's own sender is blocked by a closed or tiny peer window while it receives
+    // (its acknowledgements cannot ride on data packets then)
+    let blocked_sender = exact && !zero_window_variant && r.chance(0.2);
+    if blocked_sender {
+        writer.push(WOp::Write { n: r.range(200, 4000), chunk: 4096 });
+    }
     if !exact {
         match r.below(4) {
             0 => writer.push(WOp::Shutdown),
@@ -1018,7 +1109,7 @@ pub fn peer_sender(seed: u64, family: &str, exact: bool) -> Scenario {
         role,
         isn,
         conn_id,
-        wnd: 1 << 20,
+        wnd: if blocked_sender { *r.pick(&[0u32, 0, 1, 50, 300]) } else { 1 << 20 },
         auto: AutoCfg { ack: AckMode::Immediate, sack: true, answer_fin: true, rx_model: None },
         pkts,
         steps,
